@@ -191,7 +191,7 @@ impl Check for C06 {
         "exploration"
     }
     fn rule(&self) -> String {
-        "Reference: the blocking reader on the whole buffer. Enumerated part (a fault at each site, linear in the message length): for every login message of every protocol version (2,3,5,6,7,8; both directions; several shapes per message from the model peer) and for a spread of world messages incl. both Wrath header forms: whole buffer; one byte at a time with a Pending before every byte; every single split position k with one Pending at the split; EOF at every offset (truncated input); and the three writer flavours over short-write/Pending pipes. Sampled part: 1-4 messages back to back on one stream (a consumption difference shows as a wrong next message), optionally with one structured corruption (truncation, count/enum/bool/string faults), arbitrary chunk compositions with Pending runs of 0-3 and both waker disciplines, through the opcode-enum readers, the typed expect helpers and read_initial_message. tokio, async-std and the chunked blocking reader (with EINTR) must return exactly what the reference returns: equal value (Debug rendering and re-encoded bytes) or an error of the same kind (outer variant, ParseErrorKind variant, io::ErrorKind, enum value), and consume the same number of bytes. Non-trivial: a delivery boundary or Pending fell strictly inside a message; distinct = distinct event-log hashes.".into()
+        "Reference: the blocking reader on the whole buffer. Enumerated part (a fault at each site, linear in the message length): for every login message of every protocol version (2,3,5,6,7,8; both directions; several shapes per message from the model peer) and for a spread of world messages incl. both Wrath header forms: whole buffer; one byte at a time with a Pending before every byte; every single split position k with one Pending at the split; EOF at every offset (truncated input); and the three writer flavours over short-write/Pending pipes. Sampled part: 1-4 messages back to back on one stream (a consumption difference shows as a wrong next message), optionally with one structured corruption (truncation, count/enum/bool/string faults), arbitrary chunk compositions with Pending runs of 0-3 and both waker disciplines, through the opcode-enum readers, the typed expect helpers and read_initial_message. tokio, async-std and the chunked blocking reader (with EINTR) must return exactly what the reference returns: equal value (Debug rendering and re-encoded bytes) or an error of the same kind (outer variant, ParseErrorKind variant, io::ErrorKind, enum value), and consume the same number of bytes. World cases are run a second time with every header encrypted under a session key (real wow_srp halves): the tokio, async-std and chunked blocking decrypting readers must agree with the blocking decrypting reader on the whole buffer (the three flavours of read_encrypted / expect_*_message_encryption are separate copies too). WARDEN_DATA frames of 0x7FFF/0x8000+ bytes put both Wrath header forms into the enumerated part of the quick tier. Non-trivial: a delivery boundary or Pending fell strictly inside a message; distinct = distinct event-log hashes.".into()
     }
     fn assumptions(&self) -> Vec<String> {
         vec![
